@@ -185,3 +185,104 @@ Proof.
   - cbn [vmap wext wf]. rewrite N.eqb_refl. reflexivity.
   - split; [|intros i []]. intros a [<-|[]]. left. cbn [wext wa]. now right.
 Qed.
+
+(* ------------------------------------------------------------------ hput *)
+Lemma vmap_ptr_inv f v q : vmap f v = VPtr q -> exists p, v = VPtr p.
+Proof. destruct v; cbn [vmap]; intros H; try discriminate. eexists; reflexivity. Qed.
+Lemma vmap_sym_inv f v n : vmap f v = VSym n -> v = VSym n.
+Proof. destruct v; cbn [vmap]; intros H; try discriminate. exact H. Qed.
+
+Lemma live_sym W s1 s2 a n : srel W s1 s2 -> wa W a ->
+  cell_at (hp s2) (wf W a) = VSym n -> cell_at (hp s1) a = VSym n.
+Proof.
+  intros R Ha H. destruct (sr_cell _ _ _ R a Ha) as [E _]. rewrite E in H. eapply vmap_sym_inv, H.
+Qed.
+
+Definition put_goal (W : world) (s1' : vm) (r1 : vcell) (res2 : res vcell) : Prop :=
+  exists a2 s2' W', res2 = ROk a2 s2' /\ ext W W' /\ srel W' s1' s2' /\ vr W' r1 a2.
+
+Lemma hput_ext W s1 s2 h1 h2 p1 p2 :
+  srel W s1 s2 -> ~ wa W p1 -> (forall a, wa W a -> wf W a <> p2) ->
+  heap_inv h1 -> heap_inv h2 -> hlen h1 <= NULL ->
+  (forall a, allocated (hp s1) a -> allocated h1 a /\ cell_at h1 a = cell_at (hp s1) a) ->
+  (forall a, allocated (hp s2) a -> allocated h2 a /\ cell_at h2 a = cell_at (hp s2) a) ->
+  allocated h1 p1 -> allocated h2 p2 ->
+  cell_at h2 p2 = vmap (wf W) (cell_at h1 p1) -> vlive W (cell_at h1 p1) ->
+  put_goal W (with_heap s1 h1) (VPtr p1) (ROk (VPtr p2) (with_heap s2 h2)).
+Proof.
+  intros R Hn Himg HI1 HI2 B F1 F2 A1 A2 Ec Lc.
+  exists (VPtr p2), (with_heap s2 h2), (wext W p1 p2). split; [reflexivity|].
+  split; [apply ext_wext; [exact Hn|destruct A1 as [L _]; lia]|].
+  split; [apply srel_alloc; assumption|apply vr_wext_ptr].
+Qed.
+
+Lemma same_frame h : forall a, allocated h a -> allocated h a /\ cell_at h a = cell_at h a.
+Proof. intros a H. split; [exact H|reflexivity]. Qed.
+
+Lemma vlive_sym W n : vlive W (VSym n).
+Proof. split; intros x []. Qed.
+
+Lemma sim_hput W v1 v2 : vr W v1 v2 -> sim W vr (hput v1) (hput v2).
+Proof.
+  intros [-> Lv] s1 s2 R. unfold hput.
+  destruct (heap_put (hp s1) v1) as [r1 h1] eqn:E1.
+  destruct (heap_put (hp s2) (vmap (wf W) v1)) as [r2 h2] eqn:E2. intros B. unfold bounded in B. cbn [with_heap hp] in B.
+  pose proof (sr_hi1 _ _ _ R) as HI1. pose proof (sr_hi2 _ _ _ R) as HI2.
+  pose proof (heap_inv_put _ _ _ _ HI1 E1) as HI1'. pose proof (heap_inv_put _ _ _ _ HI2 E2) as HI2'.
+  pose proof (heap_put_res _ _ _ _ HI1 E1) as P1. pose proof (heap_put_res _ _ _ _ HI2 E2) as P2.
+  change (put_goal W (with_heap s1 h1) r1 (ROk r2 (with_heap s2 h2))).
+  destruct P1 as [p Ev Er Eh|n p1 Ev Er Eh Al1 Ce1|p1 Er Fr1 Np1 Ns1].
+  - (* a pointer *) subst v1 r1 h1. cbn [vmap] in *.
+    destruct P2 as [q Ev2 Er2 Eh2|n q Ev2 _ _ _ _|q _ _ Nq _]; [|discriminate|exfalso; eapply Nq; reflexivity].
+    subst r2 h2. rewrite !with_heap_same. exists (VPtr (wf W p)), s2, W.
+    split; [reflexivity|]. split; [apply ext_refl|]. split; [exact R|]. split; [reflexivity|exact Lv].
+  - (* an interned symbol on the left *) subst v1 r1 h1. cbn [vmap] in *.
+    destruct (classic (wa W p1)) as [Hl|Hd].
+    + assert (C2 : cell_at (hp s2) (wf W p1) = VSym n).
+      { destruct (sr_cell _ _ _ R p1 Hl) as [E _]. rewrite E, Ce1. reflexivity. }
+      pose proof (sr_al2 _ _ _ R p1 Hl) as Al2.
+      destruct P2 as [q Ev2 _ _|n' p2 Ev2 Er2 Eh2 Al2' Ce2|p2 _ _ _ Ns2]; [discriminate| |].
+      * injection Ev2 as <-. subst r2 h2.
+        assert (p2 = wf W p1) as -> by (apply (proj1 (same_name_iff_same_cell _ _ _ n n HI2 Al2' Al2 Ce2 C2)); reflexivity).
+        rewrite !with_heap_same. exists (VPtr (wf W p1)), s2, W.
+        split; [reflexivity|]. split; [apply ext_refl|]. split; [exact R|]. split; [reflexivity|].
+        split; [|intros i []]. intros a [<-|[]]. now left.
+      * exfalso. specialize (Ns2 n eq_refl).
+        assert (X : symtab_find (symtab (hp s2)) n = Some (wf W p1)) by (apply (hi_symtab _ HI2); destruct Al2; auto).
+        congruence.
+    + destruct P2 as [q Ev2 _ _|n' p2 Ev2 Er2 Eh2 Al2' Ce2|p2 Er2 Fr2 _ _]; [discriminate| |].
+      * injection Ev2 as <-. subst r2 h2.
+        apply hput_ext; try assumption; try apply same_frame.
+        -- intros a Ha Heq. apply Hd. rewrite <- Heq in Ce2. pose proof (live_sym _ _ _ _ _ R Ha Ce2) as Ca.
+           rewrite <- (proj1 (same_name_iff_same_cell _ _ _ n n HI1 (sr_al1 _ _ _ R a Ha) Al1 Ca Ce1) eq_refl). exact Ha.
+        -- rewrite Ce1, Ce2. reflexivity.
+        -- rewrite Ce1. apply vlive_sym.
+      * subst r2. apply hput_ext; try assumption; try apply same_frame.
+        -- intros a Ha Heq. apply (fr_new _ _ _ _ Fr2). rewrite <- Heq. apply (sr_al2 _ _ _ R a Ha).
+        -- apply (fr_old _ _ _ _ Fr2).
+        -- apply (fr_al _ _ _ _ Fr2).
+        -- rewrite Ce1, (fr_cell _ _ _ _ Fr2). reflexivity.
+        -- rewrite Ce1. apply vlive_sym.
+  - (* a fresh cell on the left *) subst r1.
+    assert (Hn : ~ wa W p1) by (intros Ha; apply (fr_new _ _ _ _ Fr1), (sr_al1 _ _ _ R), Ha).
+    destruct P2 as [q Ev2 _ _|n p2 Ev2 Er2 Eh2 Al2' Ce2|p2 Er2 Fr2 _ _].
+    + exfalso. destruct (vmap_ptr_inv _ _ _ Ev2) as [p Ep]. apply (Np1 p Ep).
+    + apply vmap_sym_inv in Ev2. subst v1 r2 h2. specialize (Ns1 n eq_refl).
+      apply hput_ext; try assumption; try apply same_frame.
+      * intros a Ha Heq. rewrite <- Heq in Ce2. pose proof (live_sym _ _ _ _ _ R Ha Ce2) as Ca.
+        assert (X : symtab_find (symtab (hp s1)) n = Some a)
+          by (apply (hi_symtab _ HI1); destruct (sr_al1 _ _ _ R a Ha); auto).
+        congruence.
+      * apply (fr_old _ _ _ _ Fr1).
+      * apply (fr_al _ _ _ _ Fr1).
+      * rewrite Ce2, (fr_cell _ _ _ _ Fr1). reflexivity.
+      * rewrite (fr_cell _ _ _ _ Fr1). apply vlive_sym.
+    + subst r2. apply hput_ext; try assumption.
+      * intros a Ha Heq. apply (fr_new _ _ _ _ Fr2). rewrite <- Heq. apply (sr_al2 _ _ _ R a Ha).
+      * apply (fr_old _ _ _ _ Fr1).
+      * apply (fr_old _ _ _ _ Fr2).
+      * apply (fr_al _ _ _ _ Fr1).
+      * apply (fr_al _ _ _ _ Fr2).
+      * rewrite (fr_cell _ _ _ _ Fr1), (fr_cell _ _ _ _ Fr2). reflexivity.
+      * rewrite (fr_cell _ _ _ _ Fr1). exact Lv.
+Qed.
